@@ -49,9 +49,29 @@ def run_all(cmds, cwd):
 
 
 def prune(cache, prefix, keep):
-    ds = sorted(glob.glob(os.path.join(cache, prefix + '-*')), key=os.path.getmtime, reverse=True)
+    """Drop old cache entries: never one of the `keep` most recently used, never one used in the last two hours (another
+    check - of this or of another source tree - may be running from it), never a build in progress (*.tmp<pid>)."""
+    import time
+    ds = sorted((d for d in glob.glob(os.path.join(cache, prefix + '-*')) if '.tmp' not in os.path.basename(d)), key=os.path.getmtime, reverse=True)
+    now = time.time()
     for d in ds[keep:]:
-        shutil.rmtree(d, ignore_errors=True)
+        try:
+            if now - os.path.getmtime(d) > 7200:
+                shutil.rmtree(d, ignore_errors=True)
+        except OSError:
+            pass
+
+
+def publish(tmp, d):
+    """Move a finished build into place unless a concurrent builder of the same key was faster (then its result stays: a
+    running check may already execute from it)."""
+    if os.path.isdir(d):
+        shutil.rmtree(tmp, ignore_errors=True)
+        return
+    try:
+        os.rename(tmp, d)
+    except OSError:
+        shutil.rmtree(tmp, ignore_errors=True)
 
 
 def cflags(variant):
@@ -82,9 +102,8 @@ def build_libmir(repo, verif, variant):
     if variant == 'asan':
         link.insert(1, '-fsanitize=address')
     run_all([link], tmp)
-    shutil.rmtree(d, ignore_errors=True)
-    os.rename(tmp, d)
-    prune(cache, 'libmir-%s' % variant, 2)
+    publish(tmp, d)
+    prune(cache, 'libmir-%s' % variant, 4)
     return d, rh
 
 
@@ -133,7 +152,6 @@ def build(harness, repo, verif, variant='plain'):
     if needs_lib:
         link += ['-rdynamic', '-L' + libdir, '-lmir', '-Wl,-rpath,' + libdir, '-ldl', '-lm', '-lpthread']
     run_all([link], tmp)
-    shutil.rmtree(d, ignore_errors=True)
-    os.rename(tmp, d)
-    prune(cache, '%s-%s' % (harness, variant), 2)
+    publish(tmp, d)
+    prune(cache, '%s-%s' % (harness, variant), 4)
     return dict(binary=binary, hash=rh, env=env, libdir=libdir)
